@@ -1,4 +1,4 @@
-import glob, json, os, re, shutil, subprocess, sys, time, hashlib
+import glob, json, os, re, shutil, subprocess, sys, tempfile, time, hashlib
 from concurrent.futures import ThreadPoolExecutor
 import build as B
 import fuzz as F
@@ -83,7 +83,45 @@ def crash_signature_full(logtext):
     return crash_signature(logtext)
 
 
+def parse_range(path):
+    """A history replay file ('vfrange 1'): a run of consecutive generated cases in ONE process, for failures that need state left
+    behind by earlier cases (e.g. process-wide caches in the library).  Returns a dict or None."""
+    try:
+        lines = [l.strip() for l in open(path, errors="replace") if l.strip() and not l.startswith("#")]
+    except OSError:
+        return None
+    if not lines or lines[0] != "vfrange 1":
+        return None
+    d = {}
+    for l in lines[1:]:
+        k, _, v = l.partition(" ")
+        d[k] = v
+    return d
+
+
+def write_range(path, sub, seed, start, count, maxsize, tier, extra, header=""):
+    with open(path, "w") as f:
+        f.write(header)
+        f.write("vfrange 1\nprop %s\nseed %d\nstart %d\ncount %d\nmaxsize %d\ntier %s\n" % (sub, seed, start, count, maxsize, tier))
+        if extra:
+            f.write("extra %s\n" % " ".join(extra))
+
+
+def run_range(exe, rng, avoid, timeout=900):
+    tmpd = tempfile.mkdtemp(prefix="verif-range-", dir="/dev/shm" if os.path.isdir("/dev/shm") else None)
+    try:
+        rc, logp = run_segment(exe, rng["prop"], int(rng["seed"]), int(rng["start"]), int(rng["count"]), int(rng["maxsize"]),
+                               os.path.join(tmpd, "r"), avoid, rng.get("tier", "quick"), timeout, rng.get("extra", "").split())
+        out = open(logp, errors="replace").read()[-4000:]
+        return (0 if rc == 0 else (rc if rc != 124 else 3)), out
+    finally:
+        shutil.rmtree(tmpd, ignore_errors=True)
+
+
 def run_replay(exe, sub, casefile, avoid, tier, timeout=120, outprefix=None):
+    rng = parse_range(casefile)
+    if rng:
+        return run_range(exe, rng, avoid, timeout=max(timeout, 900))
     cmd = [exe, "replay", "--prop", sub, "--case", casefile, "--tier", tier]
     if avoid:
         cmd += ["--avoid", ",".join(avoid)]
@@ -216,7 +254,7 @@ def worker_campaign(exe, sub, seed, start, count, maxsize, workdir, wid, avoid, 
         if rc in (0, 1):
             if st:
                 for f in st.get("fails", []):
-                    res["fails"].append(f)
+                    res["fails"].append(dict(f, first_index=st.get("first_index", cur), maxsize=maxsize, extra=list(extra)))
             break
         if rc == 124:
             res["inconclusive"] += 1
@@ -260,6 +298,7 @@ def cmd_check(pid, tier, seed):
     violations, known_lines, notes = [], [], []
     merged = dict(evaluations=0, nontrivial=0, labels={}, excluded={}, samples=[], distinct=0, parts={})
     health_errors = []
+    origin = {}   # replay file of a generated failure -> where in which worker segment it occurred
 
     # ---- 1. regression cases (must pass) and known-finding reproducers (expected to fail)
     for p in chk["parts"]:
@@ -342,6 +381,10 @@ def cmd_check(pid, tier, seed):
                 dst = os.path.join(replaydir, "%s-%s.case" % (sub, hashlib.sha1(open(f["replay"], "rb").read()).hexdigest()[:12]))
                 shutil.copy(f["replay"], dst)
                 violations.append((dst, f["msg"]))
+                m = re.search(r"^# property \S+ seed \d+ index (\d+)", open(dst, errors="replace").readline())
+                if m:
+                    origin[dst] = dict(sub=sub, index=int(m.group(1)), first_index=f.get("first_index", 0), maxsize=f.get("maxsize", maxsize),
+                                       extra=f.get("extra", []))
             for c in r["crashes"]:
                 crash_by_sig.setdefault(c["sig"], []).append(c)
             if r["inconclusive"]:
@@ -401,7 +444,36 @@ def cmd_check(pid, tier, seed):
                 fails += 1
         if fails == 3:
             confirmed.append((path, msg))
-        else:
+            continue
+        # The case does not fail on its own.  The property quantifies over histories, and several libraries used one after the other
+        # in one process are a history: replay the worker's run of cases up to and including the failing one in a single process.
+        o = origin.get(path)
+        hist_ok = False
+        if o and o["index"] >= o["first_index"]:
+            exe_h = exes[part["harness"]]
+            lo, hi = o["first_index"], o["index"]          # invariant: the run [lo, hi] fails (checked first)
+            def fails_from(start):
+                rng = dict(prop=o["sub"], seed=str(seed), start=str(start), count=str(hi - start + 1), maxsize=str(o["maxsize"]), tier=tier,
+                           extra=" ".join(o["extra"]))
+                return run_range(exe_h, rng, avoid)[0] != 0
+            if fails_from(lo):
+                good, bad = lo, hi                          # shorten the run: latest start that still fails (bisection, <= 8 probes)
+                for _ in range(8):
+                    if bad - good <= 1:
+                        break
+                    mid = (good + bad) // 2
+                    if fails_from(mid):
+                        good = mid
+                    else:
+                        bad = mid
+                hpath = os.path.join(replaydir, "%s-history-%s.case" % (o["sub"], hashlib.sha1(("%d-%d-%d" % (seed, good, hi)).encode()).hexdigest()[:12]))
+                write_range(hpath, o["sub"], seed, good, hi - good + 1, o["maxsize"], tier, o["extra"],
+                            "# property %s: case %d fails only after the earlier cases of this run in the same process (state kept between libraries)\n"
+                            "# message: %s\n" % (o["sub"], hi, msg.replace("\n", " ")[:1500]))
+                if all(run_replay(exe_h, o["sub"], hpath, avoid, tier)[0] != 0 for _ in range(3)):
+                    confirmed.append((hpath, msg + "  [fails only after earlier cases in the same process: replay is a run of %d consecutive cases]" % (hi - good + 1)))
+                    hist_ok = True
+        if not hist_ok:
             health_errors.append("flaky: %s failed %d/3 replays (%s)" % (path, fails, msg[:100]))
 
     wall = time.time() - t0
